@@ -8,7 +8,11 @@ W=/tmp/wt_try_$$
 git -C /repo worktree add --detach -q $W HEAD || exit 2
 git -C $W apply "$P" || { echo "PATCH DOES NOT APPLY"; git -C /repo worktree remove --force $W; exit 2; }
 rc=0
+# private build directory: the cached binaries of /repo are neither used nor overwritten
+B=/verif/build/try_$$
+mkdir -p $B
 for c in "$@"; do
-  TETL_REPO=$W MC_NO_CONFIRM=1 timeout ${TRY_TIMEOUT:-1500} python3 /verif/check.py $c --tier ${TIER:-quick} ${FLAVOURS:+--flavours $FLAVOURS} 2>/dev/null | grep -E "^VIOLATION|^   subject|^   case|^C[0-9]+ (quick|thorough)|BUILD-FAILED" | head -${LINES_MAX:-14}
+  MC_BUILD_DIR=$B TETL_REPO=$W MC_NO_CONFIRM=1 timeout ${TRY_TIMEOUT:-1500} python3 /verif/check.py $c --tier ${TIER:-quick} ${FLAVOURS:+--flavours $FLAVOURS} 2>/dev/null | grep -E "^VIOLATION|^   subject|^   case|^C[0-9]+ (quick|thorough)|BUILD-FAILED" | head -${LINES_MAX:-14}
 done
+rm -rf $B
 git -C /repo worktree remove --force $W
